@@ -10,7 +10,7 @@ ASSUMPTIONS = A01 + ["file contents are ARBITRARY (ghost functions unconstrained
 TRUSTED = T01 + ["pool.imap order and exception propagation (assumed)"]
 
 
-def tasks(tier):
+def _tasks0(tier):
     from props.taste_parents import parent_tasks
     return worker_tasks("C04", ["sound"]) + dispatch_tasks("C04") + parent_tasks("C04")
 
@@ -42,3 +42,10 @@ def scenarios(tier, seed):
 def run_scenario(p, wd):
     from harness.rt_taste import run_reject_scenario
     return run_reject_scenario(p, wd)
+
+
+
+def tasks(tier):
+    # the FAB header parsers / formatter (real bodies on canonical header text): the obligations behind the header contracts
+    from props.parsers import parser_tasks
+    return _tasks0(tier) + parser_tasks("C04", nds=(2, 3))
